@@ -1,10 +1,295 @@
-(* C04 — placeholder while the proofs are being written: a computed sanity
-   example only.  The theorems of DESIGN.md section 4 C04 replace this file. *)
-From Moc Require Import Base Match Cache CacheSpec.
+(* C04 — In-memory store retention: capacity, no duplicates, newest version
+   wins.  Statements only; each is closed by [exact] of a lemma proved in
+   CacheInvProofs.v / CacheAddProofs.v / CacheExamples.v and followed by
+   Print Assumptions.
+
+   Reading guide.  [c_add s e] is the model of [EventCache.Add]; [c_listing s]
+   is what [Find([{}])] returns; [c_run cap h] is the store after the
+   insertion history [h]; [Inv] is the representation invariant (CacheInv.v);
+   [step_ok_c04] is the oracle the correspondence check applies to the real
+   cache's consecutive listings (CacheSpec.v).
+
+   Hypotheses.  [hist_ok h]: events of the history with equal ids are equal,
+   ids and pubkeys contain no ':'.  [hist_ok5 h] adds (CacheHyp.v): the tags
+   of deletion requests are well-shaped ([k5_wf]: an e tag carries an id, an
+   a tag carries kind:pubkey:d) and no ephemeral event is referenced by a
+   deletion request of its own author ([eph_unref]).  The two additions are
+   necessary: [C04_side_conditions_needed].  [step_hyps s e] is the same for
+   one step from an arbitrary state satisfying the invariant. *)
+From Coq Require Import Permutation Sorted.
+From Moc Require Import Base Match Cache CacheSpec CacheInv CacheHyp
+  CacheFacts CacheInvProofs CacheAddProofs CacheExamples.
 Open Scope Z_scope.
 
-Example C04_sanity :
-  let e1 := mkEvent [1]%N [9]%N 3 1 [] [] [] in
-  let e2 := mkEvent [2]%N [9]%N 4 1 [] [] [] in
-  c_listing (c_run 1 [e1; e2]) = [e2].
-Proof. vm_compute. reflexivity. Qed.
+(* ------------------------------------------------------------------ *)
+(** * The invariant holds in every reachable state *)
+
+Theorem C04_inv_empty : forall cap, Inv (c_empty cap).
+Proof. exact inv_empty. Qed.
+Print Assumptions C04_inv_empty.
+
+Theorem C04_inv_delete : forall s k, Inv s -> Inv (c_delete s k).
+Proof. exact inv_delete. Qed.
+Print Assumptions C04_inv_delete.
+
+Theorem C04_inv_add : forall s e,
+  Inv s -> ids_functional (e :: retained s) -> Inv (fst (c_add s e)).
+Proof. exact inv_add. Qed.
+Print Assumptions C04_inv_add.
+
+Theorem C04_inv_reachable : forall cap h, hist_ok h -> Inv (c_run cap h).
+Proof. exact inv_reachable. Qed.
+Print Assumptions C04_inv_reachable.
+
+(** the match-everything query is a scan of the created_at tree, which the
+    invariant ties to the primary table *)
+Theorem C04_listing_is_tree : forall s, Inv s -> c_listing s = c_tree s.
+Proof. exact listing_is_tree. Qed.
+Print Assumptions C04_listing_is_tree.
+
+Theorem C04_listing_is_retained : forall s, Inv s -> Permutation (c_listing s) (retained s).
+Proof. exact listing_perm. Qed.
+Print Assumptions C04_listing_is_retained.
+
+(* ------------------------------------------------------------------ *)
+(** * Step-by-step refinement *)
+
+(** every insertion, from any state satisfying the invariant, is a step the
+    specification allows *)
+Theorem C04_add_refines : forall s e,
+  Inv s -> ids_functional (e :: retained s) ->
+  key_wf e -> Forall key_wf (retained s) ->
+  k5_wf e -> Forall k5_wf (retained s) ->
+  eph_ok (c_listing s) e -> 1 <= c_cap s ->
+  step_ok_c04 (c_cap s) (c_listing s) e (snd (c_add s e)) (c_listing (fst (c_add s e))) = true.
+Proof. exact add_refines_c04. Qed.
+Print Assumptions C04_add_refines.
+
+(** along every admissible history, every consecutive pair of listings *)
+Theorem C04_history_refines : forall cap h,
+  hist_ok5 h -> 1 <= cap ->
+  forall h1 e h2, h = h1 ++ e :: h2 ->
+    step_ok_c04 cap (c_listing (c_run cap h1)) e (snd (c_add (c_run cap h1) e))
+                (c_listing (c_run cap (h1 ++ [e]))) = true.
+Proof. exact history_refines_c04. Qed.
+Print Assumptions C04_history_refines.
+
+(** the same in the form the correspondence check evaluates on the real cache *)
+Theorem C04_run_refines : forall cap h,
+  hist_ok5 h -> 1 <= cap -> run_steps_ok step_ok_c04 cap (c_empty cap) h = true.
+Proof. exact run_refines_c04. Qed.
+Print Assumptions C04_run_refines.
+
+(** the prefixes of an admissible history satisfy the step hypotheses *)
+Theorem C04_hist_step_hyps : forall cap h1 e h2,
+  hist_ok5 (h1 ++ e :: h2) -> 1 <= cap -> step_hyps (c_run cap h1) e.
+Proof. exact hist_step_hyps. Qed.
+Print Assumptions C04_hist_step_hyps.
+
+(* ------------------------------------------------------------------ *)
+(** * What the oracle says, declaratively *)
+
+(** [step_ok_c04 cap R e added R' = true] means exactly [step_c04 …]:
+    at most [cap] events, no id twice, one event per address, nothing
+    ephemeral; [added] iff not a duplicate, not older-or-equal than the
+    retained version of its address, not suppressed; a rejected insertion
+    changes nothing; an accepted one leaves the base set [in_base] (old
+    listing plus the event, minus the replaced version, minus what the event
+    deletes), less one event of minimal created_at when the base set exceeds
+    the capacity. *)
+Theorem C04_oracle_reading : forall cap R e added R',
+  step_ok_c04 cap R e added R' = true <-> step_c04 cap R e added R'.
+Proof. exact step_ok_c04_iff. Qed.
+Print Assumptions C04_oracle_reading.
+
+Theorem C04_oracle_base : forall R e x,
+  In x (base_after R e) <->
+  (In x R \/ (x = e /\ cls_ephemeral (ev_kind e) = false)) /\
+  ~ (In x R /\ same_address x e = true) /\
+  ~ (is_k5 e = true /\ ev_pk x = ev_pk e /\ refs e x = true).
+Proof. exact base_after_In. Qed.
+Print Assumptions C04_oracle_base.
+
+Theorem C04_oracle_expected : forall R e,
+  expected_added R e = true <->
+  ~ (exists y, In y R /\ ev_id y = ev_id e) /\
+  ~ (exists x, In x R /\ same_address x e = true /\ ev_ts e <= ev_ts x) /\
+  ~ (exists d, In d R /\ ev_kind d = 5 /\ ev_pk d = ev_pk e /\ refs d e = true).
+Proof. exact expected_added_spec. Qed.
+Print Assumptions C04_oracle_expected.
+
+(** the model's keys are the property's addresses: equal keys mean both
+    regular with the same id, or the same address *)
+Theorem C04_key_is_address : forall x y,
+  key_wf x -> key_wf y ->
+  GenMsg.g_event_type (ev_kind x) <> 3 -> GenMsg.g_event_type (ev_kind y) <> 3 ->
+  event_key x = event_key y ->
+  (GenMsg.g_event_type (ev_kind x) = 1 /\ GenMsg.g_event_type (ev_kind y) = 1 /\ ev_id x = ev_id y) \/
+  same_address x y = true.
+Proof. exact event_key_inj. Qed.
+Print Assumptions C04_key_is_address.
+
+Theorem C04_address_is_key : forall x y, same_address x y = true -> event_key x = event_key y.
+Proof. exact same_address_key. Qed.
+Print Assumptions C04_address_is_key.
+
+(* ------------------------------------------------------------------ *)
+(** * The clauses of the property *)
+
+(** at most capacity events *)
+Theorem C04_cap_bound : forall cap h,
+  hist_ok h -> 1 <= cap -> Z.of_nat (length (c_listing (c_run cap h))) <= cap.
+Proof. exact cap_bound. Qed.
+Print Assumptions C04_cap_bound.
+
+(** no id twice *)
+Theorem C04_no_dup_ids : forall cap h,
+  hist_ok h -> 1 <= cap -> NoDup (List.map ev_id (c_listing (c_run cap h))).
+Proof. exact no_dup_ids. Qed.
+Print Assumptions C04_no_dup_ids.
+
+(** at most one event per replaceable / addressable address *)
+Theorem C04_one_per_address : forall cap h,
+  hist_ok h -> 1 <= cap ->
+  forall x y, In x (c_listing (c_run cap h)) -> In y (c_listing (c_run cap h)) ->
+              same_address x y = true -> x = y.
+Proof. exact one_per_address_thm. Qed.
+Print Assumptions C04_one_per_address.
+
+(** ephemeral events are never served from storage *)
+Theorem C04_ephemeral_never_served : forall cap h,
+  hist_ok h -> 1 <= cap ->
+  forall x, In x (c_listing (c_run cap h)) -> cls_ephemeral (ev_kind x) = false.
+Proof. exact ephemeral_never_served. Qed.
+Print Assumptions C04_ephemeral_never_served.
+
+(** offering a newer version displaces the retained one *)
+Theorem C04_newer_displaces : forall s e x,
+  step_hyps s e ->
+  In x (c_listing s) -> same_address x e = true -> ev_ts x < ev_ts e ->
+  suppressed (c_listing s) e = false ->
+  snd (c_add s e) = true /\ ~ In x (c_listing (fst (c_add s e))).
+Proof. exact newer_displaces. Qed.
+Print Assumptions C04_newer_displaces.
+
+(** offering a version that is not newer never does: the store is unchanged
+    and the insertion is reported as not new (needs the invariant and
+    distinct ids only) *)
+Theorem C04_older_never_displaces : forall s e x,
+  Inv s -> ids_functional (e :: retained s) ->
+  In x (c_listing s) -> same_address x e = true -> ev_ts e <= ev_ts x ->
+  c_add s e = (s, false).
+Proof. exact older_never_displaces. Qed.
+Print Assumptions C04_older_never_displaces.
+
+(** reported as new iff neither a duplicate, nor older than the retained
+    version of its address, nor suppressed by a deletion request *)
+Theorem C04_reported_new_iff : forall s e,
+  step_hyps s e ->
+  (snd (c_add s e) = true <->
+   ~ (exists y, In y (c_listing s) /\ ev_id y = ev_id e) /\
+   ~ (exists x, In x (c_listing s) /\ same_address x e = true /\ ev_ts e <= ev_ts x) /\
+   ~ (exists d, In d (c_listing s) /\ ev_kind d = 5 /\ ev_pk d = ev_pk e /\ refs d e = true)).
+Proof. exact reported_new_iff. Qed.
+Print Assumptions C04_reported_new_iff.
+
+(** an event leaves the store only as the replaced older version of the new
+    event's address, as a target of the new deletion request of its own
+    author, or as an event of minimal created_at when capacity is exceeded *)
+Theorem C04_leaves_only_by : forall s e x,
+  step_hyps s e -> In x (c_listing s) -> ~ In x (c_listing (fst (c_add s e))) ->
+  snd (c_add s e) = true /\
+  (same_address x e = true \/
+   (ev_kind e = 5 /\ ev_pk x = ev_pk e /\ refs e x = true) \/
+   (c_cap s < Z.of_nat (length (base_after (c_listing s) e)) /\ in_base (c_listing s) e x /\
+    forall y, in_base (c_listing s) e y -> ev_ts x <= ev_ts y)).
+Proof. exact leaves_only_by. Qed.
+Print Assumptions C04_leaves_only_by.
+
+(** nothing enters except the inserted event *)
+Theorem C04_enters_only_e : forall s e x,
+  Inv s -> ids_functional (e :: retained s) ->
+  In x (retained (fst (c_add s e))) -> x = e \/ In x (retained s).
+Proof. exact add_retained_sub. Qed.
+Print Assumptions C04_enters_only_e.
+
+(* ------------------------------------------------------------------ *)
+(** * Non-vacuity: a history with a replacement, a rejected older version, a
+      deletion, a blocked re-insertion, two evictions and an ephemeral event
+      meets the hypotheses *)
+
+Example C04_example_hist_ok : hist_ok5 ex_h /\ hist_ok ex_h.
+Proof. exact (conj ex_h_ok ex_h_ok'). Qed.
+
+Example C04_example_run :
+  verdicts (c_empty 3) ex_h = [true; true; true; false; true; true; false; true; true; true] /\
+  c_listing (c_run 3 [x_e1; x_r1; x_r2]) = [x_r2; x_e1] /\
+  c_listing (c_run 3 [x_e1; x_r1; x_r2; x_r0; x_p1; x_d1]) = [x_d1; x_r2; x_p1] /\
+  c_listing (c_run 3 [x_e1; x_r1; x_r2; x_r0; x_p1; x_d1; x_e1; x_b1]) = [x_b1; x_d1; x_r2] /\
+  c_listing (c_run 3 ex_h) = [x_b2; x_b1; x_d1].
+Proof. exact (conj ex_h_verdicts ex_h_listings). Qed.
+
+(** hypotheses of [C04_add_refines] and of the step corollaries *)
+Example C04_example_step_replace : step_hyps (c_run 3 [x_e1; x_r1]) x_r2.
+Proof. exact ex_step_replace. Qed.
+Example C04_example_step_delete : step_hyps (c_run 3 [x_e1; x_r1; x_r2; x_r0; x_p1]) x_d1.
+Proof. exact ex_step_delete. Qed.
+Example C04_example_step_evict : step_hyps (c_run 3 [x_e1; x_r1; x_r2; x_r0; x_p1; x_d1; x_e1]) x_b1.
+Proof. exact ex_step_evict. Qed.
+
+(** hypotheses of [C04_newer_displaces] *)
+Example C04_example_newer :
+  step_hyps (c_run 3 [x_e1; x_r1]) x_r2 /\ In x_r1 (c_listing (c_run 3 [x_e1; x_r1])) /\
+  same_address x_r1 x_r2 = true /\ ev_ts x_r1 < ev_ts x_r2 /\
+  suppressed (c_listing (c_run 3 [x_e1; x_r1])) x_r2 = false.
+Proof.
+  split; [exact ex_step_replace|]. split; [apply In_by_ev_in; vm_compute; reflexivity|].
+  vm_compute. auto.
+Qed.
+
+(** hypotheses of [C04_older_never_displaces] *)
+Example C04_example_older :
+  step_hyps (c_run 3 [x_e1; x_r1; x_r2]) x_r0 /\ In x_r2 (c_listing (c_run 3 [x_e1; x_r1; x_r2])) /\
+  same_address x_r2 x_r0 = true /\ ev_ts x_r0 <= ev_ts x_r2.
+Proof.
+  split; [exact ex_step_older|]. split; [apply In_by_ev_in; vm_compute; reflexivity|].
+  split; [vm_compute; reflexivity | vm_compute; discriminate].
+Qed.
+
+(** hypotheses of [C04_leaves_only_by]: the eviction of [x_p1] *)
+Example C04_example_leaves :
+  step_hyps (c_run 3 [x_e1; x_r1; x_r2; x_r0; x_p1; x_d1; x_e1]) x_b1 /\
+  In x_p1 (c_listing (c_run 3 [x_e1; x_r1; x_r2; x_r0; x_p1; x_d1; x_e1])) /\
+  ~ In x_p1 (c_listing (fst (c_add (c_run 3 [x_e1; x_r1; x_r2; x_r0; x_p1; x_d1; x_e1]) x_b1))).
+Proof.
+  split; [exact ex_step_evict|]. split; [apply In_by_ev_in; vm_compute; reflexivity|].
+  intro H. apply ev_in_In in H. vm_compute in H. discriminate.
+Qed.
+
+(* ------------------------------------------------------------------ *)
+(** * The side conditions are needed
+
+    Without [eph_ok] / [k5_wf] the refinement statement is false of the
+    faithful model (and of the code): (1) the code accepts an ephemeral event
+    before it looks at the deletion registry; (2)-(4) the code treats a and e
+    tags alike and compares the value with the stored key and with the id. *)
+
+Theorem C04_side_conditions_needed :
+  (* (1) an ephemeral event named by a retained deletion request of its author *)
+  (plain_hyps (c_run 5 [w1_d]) w1_x /\ k5_wf w1_x /\ Forall k5_wf (retained (c_run 5 [w1_d])) /\
+   c_add (c_run 5 [w1_d]) w1_x = (c_run 5 [w1_d], true) /\
+   suppressed (c_listing (c_run 5 [w1_d])) w1_x = true /\
+   step_ok_c04 5 (c_listing (c_run 5 [w1_d])) w1_x true (c_listing (c_run 5 [w1_d])) = false /\
+   step_ok_c05 5 (c_listing (c_run 5 [w1_d])) w1_x true (c_listing (c_run 5 [w1_d])) = false) /\
+  (* (3) an e tag that carries an address *)
+  (plain_hyps (c_run 5 [w3_d]) w3_x /\
+   snd (c_add (c_run 5 [w3_d]) w3_x) = false /\ suppressed (c_listing (c_run 5 [w3_d])) w3_x = false /\
+   step_ok_c04 5 (c_listing (c_run 5 [w3_d])) w3_x (snd (c_add (c_run 5 [w3_d]) w3_x))
+               (c_listing (fst (c_add (c_run 5 [w3_d]) w3_x))) = false) /\
+  (* (4) an a tag kind:pubkey (no trailing colon) against a replaceable event *)
+  (plain_hyps (c_run 5 [w4_d]) w4_x /\
+   snd (c_add (c_run 5 [w4_d]) w4_x) = false /\ suppressed (c_listing (c_run 5 [w4_d])) w4_x = false /\
+   step_ok_c04 5 (c_listing (c_run 5 [w4_d])) w4_x (snd (c_add (c_run 5 [w4_d]) w4_x))
+               (c_listing (fst (c_add (c_run 5 [w4_d]) w4_x))) = false).
+Proof. exact (conj w1_refuted (conj w3_refuted w4_refuted)). Qed.
+Print Assumptions C04_side_conditions_needed.
